@@ -167,6 +167,33 @@ Theorem C16_search_stagnation_repaired_on_witness :
 Proof. exact stag_repaired. Qed.
 Print Assumptions C16_search_stagnation_repaired_on_witness.
 
+(* progress of the repaired search for ANY input: with the width test
+   `t_final <= t_prev + norm_t_tol`, for every strictly positive squared-norm
+   oracle, every logarithm that is positive and strictly increasing above 1
+   and every bracket with norm_old > target > norm > 0, all the times the
+   search asks the integrator for are pairwise different and lie strictly
+   inside the bracket (each one becomes an end of a strictly smaller bracket):
+   a guess is never repeated, whatever norm_steps. *)
+Theorem C16_repaired_search_never_repeats_a_request :
+  forall (o : opts QN) nrm2 lg stp,
+    (forall sg c g, stp sg c g = g) ->
+    (forall x y, 1 < x -> x < y -> 0 < lg x /\ lg x < lg y)%Q ->
+    (forall sg t, 0 < nrm2 sg t)%Q ->
+    (0 < norm_t_tol QN o)%Q -> (0 < norm_tol QN o)%Q ->
+    forall fuel sg t_prev t_final norm_old norm tg,
+      (t_prev <= t_final)%Q -> (0 < norm)%Q -> (norm < tg)%Q -> (tg < norm_old)%Q ->
+      exists rq,
+        (match fct_loop_w o nrm2 lg stp fuel 0 sg [] t_final t_prev t_final norm_old norm tg with
+         | Broke _ _ _ _ r => r | LoopEnd _ _ r => r end) = rq /\
+        NoDup rq /\ (forall r, In r rq -> (t_prev < r /\ r < t_final)%Q).
+Proof.
+  intros o nrm2 lg stp Hstp Hlg Hpos Htt Hnt fuel sg tp tf no n tg Hb Hn Hle Hlt.
+  destruct (fct_w_progress o nrm2 lg stp Hstp Hlg Hpos Htt Hnt fuel 0 sg [] tf tp tf no n tg
+                           Hb Hn Hle Hlt) as (new & E & ND & HI).
+  exists new. rewrite app_nil_r in E. split; [exact E|]. split; [exact ND|exact HI].
+Qed.
+Print Assumptions C16_repaired_search_never_repeats_a_request.
+
 (* ---------------------------------------------------------------------
    4. Exact arithmetic: every time the search asks the ODE integrator for
       lies in (t_prev, t_final] - inside the dense-output range of the last
